@@ -254,7 +254,14 @@ func runC13(cs c13case, rng *h.Rand) (obs c13obs) {
 	}
 	ctx, cancel := context.WithTimeout(context.Background(), 20*time.Second)
 	defer cancel()
-	c, err := kmipclient.DialContext(ctx, "mem", opts...)
+	var c *kmipclient.Client
+	var err error
+	if (cs.cmask+cs.smask)%2 == 1 {
+		// the other way to connect: the cluster dialer (same negotiation, same enforced version)
+		c, err = kmipclient.DialClusterContext(ctx, []string{"mem"}, append(opts, kmipclient.WithRetryTimeout(time.Second))...)
+	} else {
+		c, err = kmipclient.DialContext(ctx, "mem", opts...)
+	}
 	if err != nil {
 		return obs
 	}
